@@ -5,8 +5,8 @@ from . import c01_check as K
 from . import c01 as _c01
 
 PROP = "C03"
-LEAN_TARGETS = ["Asynkit.Props.C03", "Asynkit.Lemmas.GenEqC01", "Asynkit.Lemmas.GenEqC01W", "Asynkit.Lemmas.GenEqAbcStd"]
-PROPS_FILES = ["Asynkit/Props/C03.lean", "Asynkit/Lemmas/GenEqC01.lean", "Asynkit/Lemmas/GenEqC01W.lean", "Asynkit/Lemmas/GenEqAbcStd.lean"]
+LEAN_TARGETS = ["Asynkit.Props.C03", "Asynkit.Lemmas.GenEqC01", "Asynkit.Lemmas.GenEqC01W", "Asynkit.Lemmas.GenEqAbcStd", "Asynkit.Lemmas.GenEqContextlib"]
+PROPS_FILES = ["Asynkit/Props/C03.lean", "Asynkit/Lemmas/GenEqC01.lean", "Asynkit/Lemmas/GenEqC01W.lean", "Asynkit/Lemmas/GenEqAbcStd.lean", "Asynkit/Lemmas/GenEqContextlib.lean"]
 DRIVERS = ["Eager"]
 THEOREM = "Asynkit.C03.cancel_equiv_task"
 TRUSTED = _c01.TRUSTED
